@@ -43,6 +43,10 @@ impl RegistryCore {
     fn register(&mut self, c: Box<dyn Collector>) -> Result<()> {
         let mut desc_id_set = HashSet::new();
         let mut collector_id: u64 = 0;
+        // Dimension hashes introduced by this collector. They are committed only
+        // once the whole collector is accepted, so that a refused registration
+        // leaves no trace.
+        let mut new_dim_hashes: HashMap<String, u64> = HashMap::new();
 
         for desc in c.desc() {
             // Is the desc_id unique?
@@ -51,7 +55,11 @@ impl RegistryCore {
                 return Err(Error::AlreadyReg);
             }
 
-            if let Some(hash) = self.dim_hashes_by_name.get(&desc.fq_name) {
+            if let Some(hash) = self
+                .dim_hashes_by_name
+                .get(&desc.fq_name)
+                .or_else(|| new_dim_hashes.get(&desc.fq_name))
+            {
                 if *hash != desc.dim_hash {
                     return Err(Error::Msg(format!(
                         "a previously registered descriptor with the \
@@ -63,8 +71,7 @@ impl RegistryCore {
                 }
             }
 
-            self.dim_hashes_by_name
-                .insert(desc.fq_name.clone(), desc.dim_hash);
+            new_dim_hashes.insert(desc.fq_name.clone(), desc.dim_hash);
 
             // If it is not a duplicate desc in this collector, add it to
             // the collector_id.
@@ -86,6 +93,7 @@ impl RegistryCore {
         match self.collectors_by_id.entry(collector_id) {
             HEntry::Vacant(vc) => {
                 self.desc_ids.extend(desc_id_set);
+                self.dim_hashes_by_name.extend(new_dim_hashes);
                 vc.insert(c);
                 Ok(())
             }
